@@ -87,6 +87,7 @@ type rec struct {
 	cur       map[int]ast.Stmt
 	tempDepth map[types.Object]int
 	tempOwner map[types.Object]ast.Stmt
+	labelIfs  map[ast.Stmt]ast.Stmt // `next := L; if c { next = M }; return Goto(next)` tails, by their first statement
 	hoisted   []string
 	// aliases: locals introduced by a refactoring as names for a pure sub-expression (`k := tla.MakeString("from")`)
 	aliases map[types.Object][]string
@@ -849,8 +850,15 @@ func (r *rec) call(x *ast.CallExpr) []string {
 				r.bad(x, "Choose without closure")
 			}
 			bind, body := r.closureBody(lit, true)
+			if len(bind) == 0 {
+				// the binder was dropped because the predicate never mentions the element
+				bind = [][]string{{"$anon"}}
+			}
 			if len(bind) != 1 {
 				r.bad(x, "CHOOSE binds %d names", len(bind))
+			}
+			if len(bind[0]) == 1 && !containsTok(body, bind[0][0]) {
+				bind[0] = []string{"$anon"}
 			}
 			out := append([]string{"CHOOSE"}, bind[0]...)
 			out = append(out, "\\in")
@@ -1187,11 +1195,85 @@ func isReadTempDecl(s ast.Stmt) bool {
 	return ok && len(vs.Names) == 1 && len(vs.Values) == 0 && vs.Names[0].Name != "err"
 }
 
+// labelVarIf recognises the tail
+//
+//	next := "A.Done"; if c { next = "A.body" }; return iface.Goto(next)
+//
+// (the target chosen into a variable, one jump) and returns the statement it abbreviates,
+// `if c { return iface.Goto("A.body") } else { return iface.Goto("A.Done") }`, built from the original nodes.
+func (r *rec) labelVarIf(list []ast.Stmt, i int) ast.Stmt {
+	if i+2 != len(list)-1 {
+		return nil
+	}
+	if r.labelIfs == nil {
+		r.labelIfs = map[ast.Stmt]ast.Stmt{}
+	}
+	if syn, ok := r.labelIfs[list[i]]; ok {
+		return syn
+	}
+	syn := r.labelVarIf1(list, i)
+	r.labelIfs[list[i]] = syn
+	return syn
+}
+
+func (r *rec) labelVarIf1(list []ast.Stmt, i int) ast.Stmt {
+	def, ok := list[i].(*ast.AssignStmt)
+	if !ok || def.Tok != token.DEFINE || len(def.Lhs) != 1 || len(def.Rhs) != 1 {
+		return nil
+	}
+	id, ok := def.Lhs[0].(*ast.Ident)
+	if !ok {
+		return nil
+	}
+	obj := r.info.Defs[id]
+	if _, isStr := r.str(def.Rhs[0]); !isStr || obj == nil {
+		return nil
+	}
+	ifs, ok := list[i+1].(*ast.IfStmt)
+	if !ok || ifs.Init != nil || ifs.Else != nil || len(ifs.Body.List) != 1 {
+		return nil
+	}
+	set, ok := ifs.Body.List[0].(*ast.AssignStmt)
+	if !ok || set.Tok != token.ASSIGN || len(set.Lhs) != 1 || len(set.Rhs) != 1 || r.obj(set.Lhs[0]) != obj {
+		return nil
+	}
+	if _, isStr := r.str(set.Rhs[0]); !isStr {
+		return nil
+	}
+	ret, ok := list[i+2].(*ast.ReturnStmt)
+	if !ok || len(ret.Results) != 1 {
+		return nil
+	}
+	call, ok := unparen(ret.Results[0]).(*ast.CallExpr)
+	if !ok || !r.isMethod(call, pkgDistsys, "ArchetypeInterface", "Goto") || len(call.Args) != 1 || r.obj(call.Args[0]) != obj {
+		return nil
+	}
+	// the variable is not mentioned by the condition
+	used := false
+	ast.Inspect(ifs.Cond, func(n ast.Node) bool {
+		if x, isId := n.(*ast.Ident); isId && r.info.ObjectOf(x) == obj {
+			used = true
+		}
+		return true
+	})
+	if used {
+		return nil
+	}
+	jump := func(target ast.Expr) *ast.BlockStmt {
+		return &ast.BlockStmt{List: []ast.Stmt{&ast.ReturnStmt{Return: ret.Return, Results: []ast.Expr{&ast.CallExpr{Fun: call.Fun, Lparen: call.Lparen, Args: []ast.Expr{target}, Rparen: call.Rparen}}}}}
+	}
+	return &ast.IfStmt{If: ifs.If, Cond: ifs.Cond, Body: jump(set.Rhs[0]), Else: jump(def.Rhs[0])}
+}
+
 func (r *rec) stmts(list []ast.Stmt) []string {
 	var out []string
 	r.depth++
 	defer func() { r.depth-- }()
 	for i := 0; i < len(list); i++ {
+		if synth := r.labelVarIf(list, i); synth != nil {
+			// the three statements are read as the if / else they abbreviate, in place
+			list = append(append([]ast.Stmt{}, list[:i]...), synth)
+		}
 		s := list[i]
 		r.cur[r.depth] = s
 		switch x := s.(type) {
@@ -1244,7 +1326,7 @@ func (r *rec) stmts(list []ast.Stmt) []string {
 						j += 2
 						continue
 					}
-					if r.isAliasDef(list[j]) || isBlankAssign(list[j]) {
+					if r.labelVarIf(list, j) == nil && (r.isAliasDef(list[j]) || isBlankAssign(list[j])) {
 						j++
 						continue
 					}
@@ -1253,6 +1335,9 @@ func (r *rec) stmts(list []ast.Stmt) []string {
 				r.tempDepth[obj] = r.depth
 				if j < len(list) {
 					r.tempOwner[obj] = list[j]
+					if syn := r.labelVarIf(list, j); syn != nil {
+						r.tempOwner[obj] = syn
+					}
 				}
 				i += 2
 			case vs.Type != nil:
@@ -1389,7 +1474,7 @@ func (r *rec) stmts(list []ast.Stmt) []string {
 							j += 2
 							continue
 						}
-						if r.isAliasDef(list[j]) || isBlankAssign(list[j]) {
+						if r.labelVarIf(list, j) == nil && (r.isAliasDef(list[j]) || isBlankAssign(list[j])) {
 							j++
 							continue
 						}
@@ -1398,6 +1483,9 @@ func (r *rec) stmts(list []ast.Stmt) []string {
 					r.tempDepth[obj] = r.depth
 					if j < len(list) {
 						r.tempOwner[obj] = list[j]
+						if syn := r.labelVarIf(list, j); syn != nil {
+							r.tempOwner[obj] = syn
+						}
 					}
 				}
 				i++
